@@ -168,6 +168,24 @@ CLAIMED = {
             "trusted: TLC, abstraction.py, Text.tla; tokens are classified legal/illegal by the harness with the "
             "documented label expressions; TM descriptions never repeat a (state, symbol)",
             "TLA+ declarative + operational models (TLC refinement check) + spec behaviours replayed + TLC trace validation"),
+    "C12": ("5/C12, Appendix B",
+            "JCHK.tla states the criterion of each of 23 checker families (language agreement up to the checker's "
+            "bound by the reference semantics + the structural requirement the checker states in its messages) and what "
+            "a reported counterexample must satisfy (genuine, polarity, minimal length).  The real checkers are given "
+            "the library's own answer, 3-6 single mutations of it and ill-formed regular-expression texts; TLC judges "
+            "per call: verdict OK => criterion, ill-formed never OK, counterexample clauses.  Trace validation of the "
+            "checkers' verdicts against a TLA+ criterion; no operational checker model (DESIGN 5/C12 planned one).",
+            "trusted: TLC, abstraction.py, the reference semantics, the printers that render the submitted answers "
+            "(C16); bounds 2-4",
+            "TLC trace validation of recorded checker verdicts against a TLA+ criterion"),
+    "C13": ("5/C13",
+            "The real chain - notebooks/make_notebook.apply_command on a temporary reference file, then the checker "
+            "called as the notebook template calls it - is run for 21 exercise types on random references (DFAs over "
+            "letters and over {0,1}, NFAs, non-degenerate simple grammars incl. a declared epsilon symbol, regexps) and "
+            "on every shipped example; TLC consumes one event per run and flags every verdict other than OK.  "
+            "The oracle is the verdict itself; this is conformance of a composition, not a model.",
+            "trusted: TLC (trivial clause), the harness's reproduction of the template's checker call",
+            "recorded end-to-end runs judged by the TLA+ trace specification"),
 }
 
 REASON_TODO = "check not built yet (work in progress; see DESIGN.md section 5)"
